@@ -3,9 +3,9 @@ from props import sched_common as sc, sched_oracles as so
 
 PID = 'C05'
 META = {
-    'text': 'One-step theorems about Hand._res with a failed/invalid outcome (complete + purge), for every engine graph satisfying the checked hypothesis wf_graphb and EVERY scheduler state: the target is withdrawn from every transitive dependent, all other targets and all independent algorithms are unchanged, nothing is triggered, the queue loses at most the failed node, one history entry is written. The model Sched.v is tied to pl/schedule.py + pl/farm.py by step-by-step correspondence on generated histories; the property oracle is also evaluated on the implementation snapshots around every failed reply.',
+    'text': 'One-step theorems about Hand._res with a failed/invalid outcome (complete + purge), for every engine graph satisfying the checked hypothesis wf_graphb and EVERY scheduler state: the target is withdrawn from every transitive dependent, all other targets and all independent algorithms are unchanged, nothing is triggered, the queue loses at most the failed node, one history entry is written. The model Sched.v is tied to pl/schedule.py + pl/farm.py by step-by-step correspondence on generated histories; the property oracle is also evaluated on the implementation snapshots around every failed reply. Worker side (pl/worker/cluster.py::execute, Model/WorkerReply.v): every ending of a run other than a normal return -- exception, invalid data, SystemExit, KeyboardInterrupt -- reaches the farm as a non-success response carrying the unit (C05_worker_reports_every_failure, C05_worker_reply_exact); the case space is finite and swept exhaustively against the real function on every run. The journal behind complete() is the real chronicle.append (scratch directory), with failure replies of units that never started.',
     'note': 'Trusted: Coq kernel; hand-written model Sched.v + correspondence driver drive_sched.py (fakes: transports, fsm stub, db.next/targets, chronicle recorder, in-memory AE packages); graph hypothesis checked per generated graph. Not covered: promotion engine on, AWS agency, real chronicle files (C18).',
-    'technique': 'Coq proof over hand-written executable model + model/implementation correspondence (vm_compute vs real scheduler) + implementation-side oracle',
+    'technique': 'Coq proof over hand-written executable models (scheduler; worker reply) + model/implementation correspondence (vm_compute vs real scheduler; exhaustive sweep of cluster.execute) + implementation-side oracle',
 }
 
 
@@ -28,7 +28,85 @@ def run(ctx):
     sc.sched_check(
         ctx, so.c05, ['sched', 'mixed'], nontrivial,
         rule='random acyclic engines (<= 8 algorithms, task/analysis/regress, 2 targets) x random histories of organize / dispatch / replies (success, failure, invalid) / worker events; corpus of directed scenarios first. Non-trivial = a failed or invalid reply arrived while >= 1 dependent and >= 1 unrelated node had pending work')
+    if not ctx.replay:
+        worker_study(ctx)
+
+
+def worker_study(ctx):
+    '''worker side (cluster.execute, Model/WorkerReply.v): every way a run can
+    end x told-to-abort or not x unit identities.  Small finite domain: swept
+    exhaustively on every run.  Oracle (the property): a run that did not
+    return normally is answered by exactly one response that is not a success,
+    carrying the unit's identity; nothing else is ever written; silence only
+    when the pipeline asked for it.'''
+    from vlib import core
+    ctx.trust('hand-written Model/WorkerReply.v (cluster.execute: how the end of a run becomes the reply) tied to the '
+              'real function by an exhaustive sweep of its finite case space (drive_worker.py: scripted farm '
+              'connection; Context.run replaced by a function that ends as the case says)')
+    cases = []
+    for e in range(6):
+        for abort in (False, True):
+            for (jid, rid, tgt) in (('p.a', 3, 'T1'), ('p.z', 4, None), ('q.b', 7, 'T2')):
+                cases.append({'ending': e, 'abort': abort, 'jobid': jid, 'runid': rid, 'target': tgt})
+    out = ctx.harness('drive_worker.py', {'cases': cases})['cases']
+    vals = ctx.coq_eval(['DV.Model.WorkerReply'],
+                        ['obs_reply (reply (ending_of %d) %s)' % (c['ending'], 'true' if c['abort'] else 'false')
+                         for c in cases], z_scope=False, chunk=60)
+    names = ['return', 'NoValidInputDataError', 'NoValidOutputDataError', 'Exception', 'SystemExit',
+             'KeyboardInterrupt']
+    mism = None
+    for c, o, mv in zip(cases, out, vals):
+        rep = {'source': 'oracle', 'worker_case': c, 'observed': o}
+        sent = o['sent']
+        if not c['abort']:
+            bad = None
+            if len(sent) != 1:
+                bad = 'wrote %d messages to the farm' % len(sent)
+            elif sent[0]['type'] != 'response':
+                bad = 'sent a %s message back instead of a response' % sent[0]['type']
+            elif (sent[0]['success'] is True) != (c['ending'] == 0):
+                bad = 'reported success=%s' % sent[0]['success']
+            elif (sent[0]['jobid'], sent[0]['runid'], sent[0]['target']) != (c['jobid'], c['runid'], c['target']):
+                bad = 'answered for another unit: %s' % sent[0]
+            elif o['escaped'] is not None and c['ending'] < 4:
+                bad = 'let %s escape' % o['escaped']
+            if bad:
+                ctx.violation('worker-failure-not-reported' if c['ending'] else 'worker-success-not-reported',
+                              {'ending': names[c['ending']]},
+                              'C05: a run of %s[%s] that ends with %s: the worker %s -- the farm never learns the '
+                              'outcome: nothing is recorded, nothing withdrawn'
+                              % (c['jobid'], c['target'], names[c['ending']], bad), rep)
+        elif sent:
+            ctx.violation('worker-wrote-after-abort', {'ending': names[c['ending']]},
+                          'C05: worker told to stop still wrote %s' % sent, rep)
+        # correspondence
+        if not sent:
+            io = [0]
+        elif sent[0]['type'] == 'task':
+            io = [1]
+        else:
+            io = [2, {False: 0, True: 1, None: 2}[sent[0]['success']], 1 if sent[0]['values'] else 0]
+        if list(mv) != io and mism is None:
+            mism = (c, list(mv), io)
+    if mism and not ctx.nviol:
+        c, mv, io = mism
+        ctx.broken('correspondence WorkerReply.v vs cluster.execute',
+                   'case %s: model %s implementation %s' % (c, mv, io),
+                   {'source': 'correspondence', 'worker_case': c, 'expected': mv, 'observed': io})
+    ctx.note('worker_reply_cases', {'cases': len(cases), 'endings': names, 'exhaustive': True})
+    ctx.count(evaluations=len(cases), nontrivial_keys=[('worker', c['ending'], c['abort']) for c in cases if c['ending']])
+    ctx.note('fingerprint_cluster', core.fingerprint('Python/dawgie/pl/worker/cluster.py', ['execute']))
 
 
 def replay(ctx, obj):
+    if obj.get('worker_case'):
+        out = ctx.harness('drive_worker.py', {'cases': [obj['worker_case']]})['cases'][0]
+        print('replayed worker case %s: %s' % (obj['worker_case'], out))
+        c, sent = obj['worker_case'], out['sent']
+        if not c['abort'] and (len(sent) != 1 or sent[0]['type'] != 'response'
+                               or (sent[0]['success'] is True) != (c['ending'] == 0)):
+            ctx.violation('worker-failure-not-reported', {'ending': c['ending']},
+                          'C05: the worker still does not report the outcome: %s' % sent,
+                          {'source': 'oracle', 'worker_case': c, 'observed': out})
+        return
     sc.sched_replay(ctx, obj, so.c05)
